@@ -180,7 +180,13 @@ def cval(v):
     if isinstance(v, bool):
         return "(PBool %s)" % C.cbool(v)
     if isinstance(v, int):
-        return "(PInt %s)" % (("(%s)" if v < 0 else "%s") % zstr(v))
+        if abs(v) < 10 ** 60:
+            return "(PInt %s)" % C.cZ(v)
+        chunks, m = [], abs(v)
+        while m:
+            m, c = divmod(m, 10 ** 18)
+            chunks.append("%d" % c)
+        return "(PInt (bigZ %s [%s]))" % (C.cbool(v < 0), ";".join(reversed(chunks)))
     if isinstance(v, str):
         return "(PStr %s)" % C.ctext(v)
     if isinstance(v, D):
